@@ -54,7 +54,17 @@ Weaker readings taken (soundness):
    when its text coincides with a substitute issued to somebody else (counted, not alarmed);
  * the system's short name and its FQDN denote one host: they are kept as two originals for (1), are
    exempt from (2) as a pair, and (3)/(4) accept the short name's pair under either spelling;
- * originals are identified textually (aa:.. and AA:.. are two originals);
+ * spellings: the textual original is the unit for mapping()/reports (each spelling is listed on its own), but for
+   clause (1) the spellings of ONE IPv6 address (letter case, leading zeros in a group, `::` against explicit zero
+   groups) and of ONE MAC (letter case, ':' against '-') are one original, and "the same substitute" then means equal
+   as addresses (ipaddress value / hex digits): that is what the unchanged code provides by evident design - every IPv6
+   group is hashed after stripping its leading zeros and lower-casing, the zeros are put back, zero and empty groups
+   stay as they are (the repository's own test_obfuscate_the_same compares substitutes with ipaddress), every MAC pair is
+   hashed lower-cased and the case / separator of the original is restored. Host names that differ in letter case are
+   two originals with two substitutes (by design). IPv4 spellings with a zero-padded first / middle octet are not
+   detected by the pattern (a digit glued to the left, like the left-hand word glue C08 excludes): measured on the
+   unchanged tree they are left alone - except that `010.1.1.1` is rewritten to `010.230.230.1` by str.replace when the
+   plain `10.1.1.1` stands on the same line. They are fed and counted (kind "text"), nothing is demanded of them;
  * the keyword CSV header is ambiguous about column order; either orientation is accepted.
 
 Fires on the unchanged tree (all inherent to sequential whole-line str.replace; drafted in
@@ -64,10 +74,12 @@ findings-draft/C09.json with the structural trigger computed by `trigger_feature
  * MAC: `M | sub(M)` when sub(M) had occurred before M was first seen (so it has an entry of its own).
 """
 import copy
+import ipaddress
 import itertools
 import json
 import os
 import pickle
+import re
 
 from mc.result import Result
 from harness import tmp
@@ -92,6 +104,7 @@ HOSTS = [FQDN, SHORT,                       # the system itself
          "b.corp.test", "a.b.corp.test",    # one a label-wise suffix of the other (and a textual suffix of db.corp.test)
          "host2.example.com"]               # outside the domain; textually equal to the first issuable substitute
 MAC1 = "aa:bb:cc:dd:ee:01"
+MAC1_DASH_UPPER = "AA-BB-CC-DD-EE-01"        # the same MAC, other letter case and separator
 MAC1_SUB = "e0:9a:bd:38:1f:dd"              # literal: what Mac._mac2db issues for MAC1 (sha1 of each hex pair)
 MACS = [MAC1, "AA:BB:CC:DD:EE:01",          # case variant
         "52-54-00-12-34-56",                # dash-separated
@@ -111,7 +124,7 @@ HOST_CASE_VARIANT = "MAIL.corp.test"
 #  two-step histories of the "shapes" family - `192.168.10.5_y` and `db.corp.testx` moved there to hold the quick budget)
 EXTRA = {"ip": ["1.2.3.4x"],
          "host": [HOST_CASE_VARIANT],
-         "mk": [MAC1 + "x"],
+         "mk": [MAC1 + "x", MAC1_DASH_UPPER],
          "v6": [],
          "mixed": ["1.2.3.4x"]}
 
@@ -125,7 +138,13 @@ def split_token(tok):
 # case variant, a textual prefix of another address, and an original equal to an issuable substitute.
 V6_1 = "2001:db8::1"
 V6_1_SUB = "9195:3b3::3"                    # literal: what IPv6._ip2db issues for V6_1 (sha1 of each hex group)
-V6S = [V6_1, "2001:DB8::1", "fe80::1", "fe80::1a", "2001:db8:0:0:0:0:0:1", V6_1_SUB]
+V6S = [V6_1, "2001:DB8::1", "2001:0db8::1", "fe80::1", "fe80::1a", "2001:db8:0:0:0:0:0:1", V6_1_SUB]
+# spelling variants of one address (used by the "spellings" histories of the shapes family)
+SPELL_V6 = [[V6_1, "2001:DB8::1", "2001:0db8::1", "2001:db8:0:0:0:0:0:1", "2001:0DB8:0000:0000:0000:0000:0000:0001",
+             "2001:db8::0001"],
+            ["fe80::42", "FE80::42", "fe80::0042", "fe80:0:0:0:0:0:0:42"]]
+SPELL_MAC = [[MAC1, "AA:BB:CC:DD:EE:01", "aa-bb-cc-dd-ee-01", MAC1_DASH_UPPER, "Aa:bB:cc:dd:ee:01"]]
+SPELL_IP4 = [["10.1.1.1", "010.1.1.1", "10.01.1.1"]]      # the padded ones are not addresses for the pattern (kind "text")
 # tokens that only the explicit "shapes" histories use
 OBF_FQDN = "c07c5843e583.example.com"       # literal: the hashed substitute of the system's own name, fed as an input
 BOUNDARY_IPS = ["255.255.255.255", "10.0.0.1", "127.0.0.1", "0.0.0.0"]       # max value, zero octets, ignore list, not an address for the pattern
@@ -133,6 +152,14 @@ BOUNDARY_MACS = ["00:00:00:00:00:00", "ff:ff:ff:ff:ff:ff"]                   # t
 KW11 = ["QZ%02dQ" % i for i in range(11)]   # 11 configured keywords: substitutes keyword0 .. keyword10
 
 KIND = {HOST_CASE_VARIANT: "host", OBF_FQDN: "host"}
+for _g in SPELL_V6:
+    for _t in _g:
+        KIND[_t] = "ipv6"
+for _g in SPELL_MAC:
+    for _t in _g:
+        KIND[_t] = "mac"
+for _t in SPELL_IP4[0][1:]:
+    KIND[_t] = "text"          # fed and counted, nothing is demanded of them (see the module docstring)
 for _t in V6S:
     KIND[_t] = "ipv6"
 for _t in BOUNDARY_IPS:
@@ -190,21 +217,21 @@ FAMILY_ORDER = ["ip", "host", "mk", "v6", "mixed"]
 BOUNDS = {
     "quick": {"families": {"ip": {"tokens": "7 + 1 glued", "line_tokens": 2, "depth": 3},
                            "host": {"tokens": "7 + case variant", "line_tokens": 2, "depth": 3},
-                           "mk": {"tokens": "5 + 1 glued", "line_tokens": 2, "depth": 3},
-                           "v6": {"tokens": "6 IPv6", "line_tokens": 2, "depth": 3},
+                           "mk": {"tokens": "5 + 1 glued + 1 separator/case spelling", "line_tokens": 2, "depth": 3},
+                           "v6": {"tokens": "7 IPv6 (3 spellings of one address)", "line_tokens": 2, "depth": 3},
                            "mixed": {"tokens": "13 + 1 glued", "line_tokens": 2, "depth": 2}},
               "spec_lines": "1 line of <= line_tokens tokens, or 2 lines of 1 token each",
               "counter_family": "6 long runs (300 IPv4 / 120 host names, ascending / descending / revisiting)",
-              "shapes_family": "8,815 explicit histories of 2-4 events: adjacent (two originals of a kind separated by one of : / , = - ( @ _ inside one token, or both glued), glue (every original x left/right literal text), channels (every ordered pair of clean_content(list) / clean_content(str) / width=True / clean_file / clean_file on netstat_-neopa on one Cleaner), exempt (no_obfuscate specs between normal ones), kw11 (11 configured keywords), second-cleaner (a second Cleaner in the same process), blank (empty lines / all-blank specs), fresh-process (second Cleaner vs a fresh interpreter)"},
+              "shapes_family": "9383 explicit histories of 2-4 events: spellings (every ordered pair of spellings of one IPv6 address / MAC / zero-padded IPv4), adjacent (two originals of a kind separated by one of : / , = - ( @ _ inside one token, or both glued), glue (every original x left/right literal text), channels (every ordered pair of clean_content(list) / clean_content(str) / width=True / clean_file / clean_file on netstat_-neopa on one Cleaner), exempt (no_obfuscate specs between normal ones), kw11 (11 configured keywords), second-cleaner (a second Cleaner in the same process), blank (empty lines / all-blank specs), fresh-process (second Cleaner vs a fresh interpreter)"},
     "thorough": {"families": {"ip": {"tokens": "7 + 1 glued", "line_tokens": 3, "depth": 4},
                               "host": {"tokens": "7 + case variant", "line_tokens": 3, "depth": 4},
-                              "mk": {"tokens": "5 + 1 glued", "line_tokens": 3, "depth": 4},
-                              "v6": {"tokens": "6 IPv6", "line_tokens": 3, "depth": 4},
+                              "mk": {"tokens": "5 + 1 glued + 1 separator/case spelling", "line_tokens": 3, "depth": 4},
+                              "v6": {"tokens": "7 IPv6 (3 spellings of one address)", "line_tokens": 3, "depth": 4},
                               "mixed": {"tokens": "13 + 1 glued", "line_tokens": 2, "depth": 3}},
                  "spec_lines": "1 line of <= line_tokens tokens (3-token lines over the base tokens only, without the "
                                "glued / case-variant additions), or 2 lines of 1 token each",
                  "counter_family": "6 long runs (300 IPv4 / 120 host names, ascending / descending / revisiting)",
-                 "shapes_family": "8,815 explicit histories of 2-4 events: adjacent (two originals of a kind separated by one of : / , = - ( @ _ inside one token, or both glued), glue (every original x left/right literal text), channels (every ordered pair of clean_content(list) / clean_content(str) / width=True / clean_file / clean_file on netstat_-neopa on one Cleaner), exempt (no_obfuscate specs between normal ones), kw11 (11 configured keywords), second-cleaner (a second Cleaner in the same process), blank (empty lines / all-blank specs), fresh-process (second Cleaner vs a fresh interpreter)"},
+                 "shapes_family": "9383 explicit histories of 2-4 events: spellings (every ordered pair of spellings of one IPv6 address / MAC / zero-padded IPv4), adjacent (two originals of a kind separated by one of : / , = - ( @ _ inside one token, or both glued), glue (every original x left/right literal text), channels (every ordered pair of clean_content(list) / clean_content(str) / width=True / clean_file / clean_file on netstat_-neopa on one Cleaner), exempt (no_obfuscate specs between normal ones), kw11 (11 configured keywords), second-cleaner (a second Cleaner in the same process), blank (empty lines / all-blank specs), fresh-process (second Cleaner vs a fresh interpreter)"},
 }
 CAP_S = {"quick": 300, "thorough": 3000}
 
@@ -544,6 +571,31 @@ def observe(ev, out):
     return occs
 
 
+def address_value(kind, text):
+    """What a spelling denotes: the IPv6 address as an integer, the MAC as 12 lower-case hex digits; None for the
+    kinds whose spellings are originals of their own and for text that is not such an address."""
+    if kind == "ipv6":
+        try:
+            return int(ipaddress.ip_address(text))
+        except ValueError:
+            return None
+    if kind == "mac":
+        t = re.sub(r"[:-]", "", text).lower()
+        return t if re.match(r"^[0-9a-f]{12}$", t) else None
+    return None
+
+
+_ADDR_CLASS = {}
+
+
+def address_class(tok):
+    if tok not in _ADDR_CLASS:
+        kind = KIND[tok]
+        val = address_value(kind, tok)
+        _ADDR_CLASS[tok] = None if val is None else (kind, val)
+    return _ADDR_CLASS[tok]
+
+
 def oracle(obs, ev, out, maps):
     """-> (violations, new_obs, stats). violations: [(clause, expected, observed, involved originals)].
     obs maps an original to the text observed in its place, or to None when it has occurred but nothing is
@@ -565,6 +617,9 @@ def oracle(obs, ev, out, maps):
             new.setdefault(tok, None)          # here it only counts as "occurred in the content"
             info["tags"].add("%s:exempt" % KIND[tok])
             continue
+        if KIND[tok] == "text":                # not an original of any kind for the code: counted only
+            info["tags"].add("text:%s" % ("same" if sub == tok else "rewritten"))
+            continue
         live.append((tok, sub))
         prev = new.get(tok)
         if prev is None:
@@ -576,6 +631,31 @@ def oracle(obs, ev, out, maps):
             if prev != sub:
                 v.append(("consistency:one-substitute-per-original", {"original": tok, "substitute": prev},
                           {"original": tok, "substitute": sub, "event_output": out}, [tok]))
+                prev = False
+        cls = address_class(tok) if KIND[tok] in ("ipv6", "mac") else None
+        if cls is not None and prev is not False and (sub != tok or _listed_for(maps, cls[0], tok)):
+            # other spellings of the same address seen so far: equal as addresses (see the module docstring)
+            for other, osub in new.items():
+                if other == tok or osub is None or KIND[other] != cls[0] or address_class(other) != cls:
+                    continue
+                if osub == other and not _listed_for(maps, cls[0], other):
+                    continue                               # that spelling was left alone and is not listed
+                info["spellings"] = info.get("spellings", 0) + 1
+                mine, theirs = address_value(cls[0], sub), address_value(cls[0], osub)
+                if mine is None or mine != theirs:
+                    # which of the two spellings deviates: the one that disagrees with what mapping() lists for it
+                    # (both, when that does not decide) - the structural trigger is judged on the deviating one
+                    lt = [address_value(cls[0], x) for x in _listed_for(maps, cls[0], tok)]
+                    lo = [address_value(cls[0], x) for x in _listed_for(maps, cls[0], other)]
+                    inv = [tok, other]
+                    if lt == [mine] and lo != [theirs]:
+                        inv = [other]
+                    elif lo == [theirs] and lt != [mine]:
+                        inv = [tok]
+                    v.append(("consistency:one-substitute-per-original",
+                              {"original": tok, "same_address_as": other, "substitute_of_that_spelling": osub},
+                              {"original": tok, "substitute": sub, "event_output": out}, inv))
+                    break
         info["tags"].add("%s:%s:%s%s" % (KIND[tok], rec, "same" if sub == tok else "sub",
                                          ":glued" if shape != "plain" else ""))
         if shape != "plain":
@@ -715,8 +795,8 @@ def trigger_features(event, involved, obs_before, maps_after):
                     if not b.endswith("." + a):
                         boundary = False
                 elif k == "ipv6":
-                    if b in owned(a) and first[a] < last[b]:
-                        cover_v6.update((a, b))
+                    if b in owned(a) and (len(a) > len(b) or (len(a) == len(b) and first[a] < last[b])):
+                        cover_v6.update((a, b))                # (longest first since the IPv6 fix; ties by position)
                     if a in b and first[a] < first[b]:
                         cover_v6sub.update((a, b))
     if inv <= cover_ip or inv <= cover_mac or inv <= cover_v6:
@@ -821,7 +901,7 @@ def run_history(case):
                 obs = {}
                 stats["forgiven_events"] = 0
             v, feats, cont, info, _maps = advance(cl, obs, event, True, may_forgive(stats["forgiven_events"], i))
-            stats["recurrences"] += info["recurrences"]
+            stats["recurrences"] += info["recurrences"] + info.get("spellings", 0)
             if v and (cont is None or i == len(hist) - 1):
                 out = []
                 for (clause, exp, got, _inv), f in zip(v, feats):
@@ -1008,6 +1088,15 @@ def shape_cases():
         bl.append(mk_case([[[a], [], [b]], [[b, a]]]))
         bl.append(mk_case([[[], [a]], [[b], []], [[a, b]]]))
         bl.append(mk_case([{"lines": [[a], [], [b]], "mode": "file"}, [[]], [[b, a]]]))
+    # spellings: every ordered pair of spellings of one address, on one line / on later lines / through other channels
+    sp = g.setdefault("spellings", [])
+    for group in SPELL_V6 + SPELL_MAC + SPELL_IP4:
+        for x, y in pairs(group):
+            sp.append(mk_case([[[x]], [[y, x]]]))
+            sp.append(mk_case([[[x, y]], [[y], [x]]]))
+            sp.append(mk_case([{"lines": [[x]], "mode": "string"}, {"lines": [[y], [x, y]], "mode": "file"}]))
+    for x, y in itertools.product(SPELL_V6[0], SPELL_V6[1]):
+        sp.append(mk_case([[[x, y]], [[SPELL_V6[1][0], SPELL_V6[0][2]]], [[y, x]]]))
     # fresh-process: the second Cleaner of a process against the first Cleaner of a fresh interpreter
     fp = g.setdefault("fresh-process", [])
     h1 = [[["1.2.3.4", "db.corp.test"], [MAC1, "SECRETKW"]], [["10.1.1.1", V6_1, "mail.corp.test"]]]
@@ -1165,6 +1254,8 @@ def run_unit(unit, tier):
                 res.stat("recurring_occurrences_compared", info["recurrences"])
             if info.get("glued"):
                 res.stat("glued_occurrences_observed", info["glued"])
+            if info.get("spellings"):
+                res.stat("spelling_variant_comparisons", info["spellings"])
             if info["unreplaced_equal_to_substitute"]:
                 res.stat("transitions_with_unreplaced_original_equal_to_issued_substitute")
             res.outcomes.add(",".join(sorted(info["tags"])))
